@@ -266,10 +266,13 @@ def r10_6(ctx: Ctx):
                 oks = canon(g1.iter) in (f"{tree_p}.levels[{d}.level]", f"{tree_p}._levels[{d}.level]") and isinstance(g1.target, ast.Name) and canon(g2.iter) == f"{g1.target.id}.children" and isinstance(g2.target, ast.Name) and canon(e.elt) == f"{g2.target.id}._sprout_seed.genome" and not g1.ifs and not g2.ifs
         obs.append(ctx.ob("R10.6", f, sd[0] if sd else stores[0], status=OK if oks else VIOLATION, detail="seed rows = seeds of every child of every deme on the parent's level" if oks else f"SkipSameSprout compares with `{norm(sd[0])[:90] if sd else '?'}`, not with the seeds of all existing demes of the target level", construct="seed-rows"))
     # the early `continue` only for parents without children
-    conts = [n for n in loops[0].body if isinstance(n, ast.If) and any(isinstance(x, ast.Continue) for x in n.body)]
-    for c in conts:
-        okc = canon(c.test) in (f"not{d}.children", f"len({d}.children)==0")
-        obs.append(ctx.ob("R10.6", f, c, status=OK if okc else VIOLATION, detail="parents without children are passed through unchanged" if okc else f"SkipSameSprout skips parents under `{norm(c.test)}`", construct="skip-cond"))
+    # normalised form: `if deme.children: <filter>` (an early `continue` for childless parents is inverted into this guard)
+    guards = [n for n in loops[0].body if isinstance(n, ast.If) and any(x is stores[0] for x in ast.walk(n))]
+    for c in guards:
+        okc = canon(c.test) in (f"{d}.children", f"len({d}.children)>0", f"len({d}.children)!=0") and not c.orelse
+        obs.append(ctx.ob("R10.6", f, c, status=OK if okc else VIOLATION, detail="parents without children are passed through unchanged" if okc else f"SkipSameSprout filters a parent only under `{norm(c.test)}`", construct="skip-cond"))
+    if not guards:
+        obs.append(ctx.ob("R10.6", f, loops[0], detail="every parent is filtered (no childless shortcut)", construct="skip-cond", trivial=True))
     return obs
 
 
